@@ -240,6 +240,22 @@ class CellModifierInput(DataInputAbstract):
         :return: a list of strings for the lines that this input will occupy.
         :rtype: list
         """
+        return self.wrap_string_for_mcnp(
+            self._format_as_text(mcnp_version), mcnp_version, True
+        )
+
+    def _format_as_text(self, mcnp_version):
+        """
+        The text of this input that is not wrapped into lines yet.
+
+        A cell includes this in its own text, and wraps all of it,
+        so the line breaks and comments that this input ends with are kept.
+
+        :param mcnp_version: The tuple for the MCNP version that must be exported to.
+        :type mcnp_version: tuple
+        :return: the text, which is empty if this input is not to be printed.
+        :rtype: str
+        """
         self.validate()
         if not self._problem:
             print_in_data_block = not self.in_cell_block
@@ -263,8 +279,8 @@ class CellModifierInput(DataInputAbstract):
         # print in either block
         if (self.in_cell_block != print_in_data_block) and self._is_worth_printing:
             self._update_values()
-            return self.wrap_string_for_mcnp(self._format_tree(), mcnp_version, True)
-        return []
+            return self._format_tree()
+        return ""
 
     @property
     def has_changed_print_style(self):  # pragma: no cover
